@@ -285,8 +285,10 @@ class _EulerBernoulli(_GroupElem):
         N = P.shape[-1]
         lines = np.repeat(range(N), N)
         columns = np.array(list(range(N)) * N)
+        # P = [i j k] maps local components to global ones (x = P x_local), so the local dofs are
+        # u_local = P^T u_global: the blocks applied to the global dofs are P^T.
         for n in range(dof_n * nPe // 3):
-            P_e_pg[:, 0, lines + n * N, columns + n * N] = P[:, lines, columns]
+            P_e_pg[:, 0, lines + n * N, columns + n * N] = P[:, columns, lines]
 
         return P_e_pg
 
